@@ -41,7 +41,8 @@ def must_see(tier):
                    'delitem', 'pop', 'setdefault', 'minKey', 'maxKey',
                    'keys-range', 'update', 'add', 'remove', 'discard', 'ior',
                    'isub', 'fn:union', 'fn:intersection', 'fn:difference',
-                   'fn:union-list', 'resolve', 'popitem', 'spop'):
+                   'fn:union-list', 'resolve', 'popitem', 'spop', 'op:|',
+                   'op:&', 'op:-', 'isdisjoint'):
             m['%s:fault:%s' % (impl, op)] = 5
         m[impl + ':fault:delete-leaf-minimum'] = 5
         m[impl + ':fault:delete-emptying-leaf'] = 3
@@ -325,6 +326,29 @@ def target_ops(rng, W, m, is_mapping, kind, fam, impl, walk):
             inject.S.armed = True
             return _lst(fam.fn(fname, impl)(c, o).keys())
         single('fn:' + fname, None, run, same)
+    if fam.has_weighted:
+        for fname in ('weightedUnion', 'weightedIntersection'):
+            def runw(c, fname=fname):
+                inject.S.armed = False
+                o = other(c)
+                inject.S.armed = True
+                return _lst(fam.fn(fname, impl)(c, o)[1].keys())
+            single('fn:' + fname, None, runw, same)
+    for sym, opf in (('|', lambda a, b: a | b), ('&', lambda a, b: a & b),
+                     ('-', lambda a, b: a - b)):
+        def runo(c, opf=opf):
+            inject.S.armed = False
+            o = other(c)
+            inject.S.armed = True
+            return _lst(opf(c, o).keys())
+        single('op:' + sym, None, runo, same)
+    if not is_mapping:
+        def rund(c):
+            inject.S.armed = False
+            o = other(c)
+            inject.S.armed = True
+            return (c.isdisjoint(o), c.isdisjoint([W.k(i) for i in oks]))
+        single('isdisjoint', None, rund, same)
     single('fn:union-list', None,
            lambda c: _lst(fam.fn('union', impl)(
                c, [W.k(i) for i in oks]).keys()), same)
